@@ -114,6 +114,8 @@ def run_task(task, prop, tier, seed, timeout):
     # engines that do not choose the construction thread count per case get a different one per shard
     env["OMP_NUM_THREADS"] = str([4, 3, 7, 2, 5, 12, 1, 16][task.shard % 8])
     env.update(task.run.get("env", {}))
+    if task.run["flavour"] in ("tsan", "tsanomp"):
+        env["VF_STDERR_MARKERS"] = "1"
     resume = None
     attempt = 0
     while True:
@@ -347,6 +349,25 @@ def run_check(prop, tier, seed):
                 if spec:
                     v["spec"] = spec
             violations.append(v)
+        # ThreadSanitizer reports in the worker's log that the in-process hook did not turn into a violation of a case
+        if flav in ("tsan", "tsanomp"):
+            reported = {(r.get("config"), r.get("case")) for r in t.records if r.get("t") == "violation" and r.get("kind") == "tsan_report"}
+            cfgs = [x for x in t.run["_configs"] if x]
+            cur = None
+            seen_cases = set()
+            text = getattr(t, "stderr_all", "")
+            for m in re.finditer(r"^VF-CASE (\d+) (\d+)$|^(WARNING: ThreadSanitizer: [^\n]*)$", text, re.M):
+                if m.group(1) is not None:
+                    cur = (int(m.group(1)), int(m.group(2)))
+                elif cur is not None and cur not in seen_cases:
+                    seen_cases.add(cur)
+                    cfgname = cfgs[cur[0]] if cur[0] < len(cfgs) else str(cur[0])
+                    if (cfgname, cur[1]) in reported:
+                        continue
+                    violations.append(dict(t="violation", prop=prop, engine=eng, flavour=flav, config=cfgname, case=cur[1], seed=seed,
+                                           kind="tsan_report", region="", detail=dict(first_line=m.group(3), source="worker log"),
+                                           stderr=text[m.start():m.start() + 3500], x=t.run.get("x", {})))
+                    sanitizer_reports["tsan"] += 1
         # post-processing hooks of the plan (e.g. TSan report extraction)
         post = t.run.get("post")
         if post:
